@@ -75,4 +75,25 @@ PROPS = {
         "assumptions": ["crash points are the quiescent points between datagrams (file copied while no request is in flight); torn sqlite pages are not injected",
                         "the database lives on tmpfs when /dev/shm exists (fsync is a no-op there)"],
     },
+    "C14": {
+        "engine": "opts",
+        "tests": [{"name": "TestC14", "quick": {"checks": 20000, "shards": 1}, "thorough": {"checks": 200000, "shards": 8}, "count_free": True}],
+        "rule": "every run first enumerates the whole matrix (2 server_id argument pairs x 256 DHCPv6 message types x 9 Server-ID relations {absent, byte-equal, other kind same MAC, same kind other MAC, longer, shorter, EN, UUID, opaque} x relay depth 0..2, and DHCPv4 {DISCOVER, REQUEST} x siaddr {zero, own, other} x option 54 {absent, zero, own, other}); rapid then draws server_id arguments (every accepted type spelling x MAC spelling of 6/8/20 bytes; dotted or v4-mapped IPv4) crossed with the same request dimensions and a stub that may already carry a foreign server id. Oracle: RFC 8415 section 16 table written independently; accepted replies must carry exactly one Server-ID byte-equal to the DUID the harness encodes itself (v4: siaddr and option 54 equal the configured address). Every row is non-trivial; distinct: FNV-64 of the case JSON.",
+        "assumptions": ["requests with two Server-ID options or a malformed option 54 are not generated (the statement does not define them)",
+                        "for message types the server itself never passes to plugins the handler is given a plain Reply stub"],
+    },
+    "C17": {
+        "engine": "opts",
+        "tests": [{"name": "TestC17", "quick": {"checks": 30000, "shards": 2}, "thorough": {"checks": 200000, "shards": 16}}],
+        "rule": "rapid draws an option plugin (netmask, router, dns, mtu, searchdomains, staticroute, lease_time, ipv6only, autoconfigure, nbp, sleep; DHCPv4 and DHCPv6 where supported), an accepted argument vector (1..4 addresses, MTU 0..65535, durations, LDH domain lists with labels up to 63 bytes, IPv4 route lists, canonical URLs over http/https/ftp/tftp/none with and without params=), a request (DISCOVER/REQUEST or SOLICIT/REQUEST/RENEW/INFORMATION-REQUEST/REBIND, relay depth 0..2, request list absent or a shuffled subset of the relevant codes plus filler, option 116 present or not) and a stub (OFFER/ACK, yiaddr assigned or not, plugin's option already present or not). Oracle: the expected option bytes are encoded by the harness (RFC 2132/3442/3397/8925/3646/5970) and the reply, read with the harness's own TLV walker, must equal the stub plus exactly that change (header untouched, nothing else added, each option once); domain lists are compared after an independent RFC 1035 decode. Every case is non-trivial; distinct: FNV-64 of the case JSON.",
+        "assumptions": ["a parameter request list that is present but empty, or that lists a code twice, is never generated", "option values longer than 255 bytes are left to C19",
+                        "whether nbp stops the chain is not asserted (the statement is silent)"],
+    },
+    "C19": {
+        "engine": "opts",
+        "tests": [{"name": "TestC19", "quick": {"checks": 12000, "shards": 2}, "thorough": {"checks": 15000, "shards": 16}}],
+        "rule": "rapid draws one of the 21 (built-in plugin, protocol) pairs and an argument vector of arity 0..4 whose tokens come, per position, from pools of valid, boundary and invalid values of the expected kind (IPv4/IPv6/v4-mapped/garbage addresses, CIDRs of both families, dest,gw pairs in every family mix, durations incl. negative/huge/garbage, integers incl. 65535/65536/negative/huge, URLs of every scheme incl. invalid escapes and 70 kB parameters, file names: valid/missing/directory/not-a-database, DUID types, MACs of 5..20 bytes, domain names with labels of 63/64/191/192/255/300 bytes, empty labels, trailing dots, non-ASCII), sometimes from another kind's pool. Setup runs under recover; if it returns a handler, a battery of 13 DHCPv4 or 54 DHCPv6 requests is run: no panic in handler or serialisation, the reply parses, its options equal the reply object's options one by one, and re-serialising gives identical bytes. Non-trivial: every case that was not skipped for a resource bound (rejected at setup, or accepted and run against the battery); distinct: FNV-64 of the case JSON.",
+        "assumptions": ["resource bounds of the sandbox, not of the property: prefix pools and ranges <= 2^20 blocks, sleep <= 5 ms, <= 5 autorefresh watchers and a bounded number of sqlite handles per process (skipped cases are counted)",
+                        "argument tokens never contain blanks: configuration arguments are whitespace-separated fields"],
+    },
 }
